@@ -16,12 +16,65 @@ CLAIMS = {
         text="Seeded search over histories of valid GroupedList operations (several live, aliased lists; falsy and sentinel values); after every operation every structural invariant and every lookup over the whole universe is compared with a plain reference model. Sampled, not exhaustive: a clean batch is evidence over the histories run.",
         note="Trusted: the reference model GLModel (~80 lines), numpy.sort/pandas.isna as used by GroupedList, Python equality on the 13-value universe. Only operations valid per the model are issued.",
     ),
+    "C10": dict(
+        engine="pairsim",
+        category="exploration",
+        design_ref="DESIGN.md §4.2",
+        technique="deterministic simulation: paired worlds (reference schedule vs seeded set-iteration/listing/column permutation x simulated worker-pool schedule with pickle isolation x co-fitted subset), per-feature equality of fitted orders and outputs",
+        text="Seeded search over feature-order permutations and pool interleavings (start/completion order, snapshot instant, at most n in flight) against a reference world with the identity schedule and n_jobs=1; worker-raised rejections must come back as the same AssertionError. Sampled schedules, not all.",
+        note="Trusted: SimPool's model of multiprocessing.Pool (pickle boundary, atomic task bodies, feasible completion orders), SimSet as the only hash-seed dependent iteration the code performs on feature names; canonical comparison of GroupedLists and frames.",
+    ),
+    "C06": dict(
+        engine="session",
+        category="exploration",
+        design_ref="DESIGN.md §4.3",
+        technique="deterministic simulation with restart faults: sessions on a fitted object saved to an in-memory disk and rebuilt by the real loader at seeded points (chains of generations, restarts of edited objects); never-restarted shadow object as oracle; JSON of every generation compared as JSON values",
+        text="Restart (save/drop/reload) injected at arbitrary points of seeded histories of transforms on seen/unseen/empty frames, summaries and manual edits; the reloaded object must behave like the shadow (same output, same rejection, same summary) and re-serialise to the same JSON. Sampled histories and worlds.",
+        note="Trusted: standard json module as the persistence medium (no file system in the library), pickle clone for the shadow, canonical frame comparison (values and NaN positions, numbers by value).",
+    ),
+    "C07": dict(
+        engine="session",
+        category="exploration",
+        design_ref="DESIGN.md §4.4",
+        technique="deterministic simulation: interleaved transform histories (subsets, permutations, relabelings, repeats, extra columns) under a simulated pool; state digests, input snapshots, fit_transform twin, end-of-history re-transform check",
+        text="Seeded call histories on one fitted object: every transformed row is compared with the label that row received in the first full transform, the fitted-state digest is compared before/after every transform, outputs keep index/columns/non-feature columns, copy=True inputs are compared with deep snapshots, fit_transform twin equals fit+transform.",
+        note="Trusted: canonical comparison of frames (numbers by value), state digest over data attributes; in-place transform with copy=False is documented and only checked on the returned frame.",
+    ),
+    "C17": dict(
+        engine="session",
+        category="exploration",
+        design_ref="DESIGN.md §4.5",
+        technique="deterministic simulation: seeded edit histories through update_discretizer (with restarts in between) checked after every edit against the DiscretizerModel reference (partition merge, values_orders, labels, summary, JSON round trip)",
+        text="Sequences of valid edits (adjacent groups of ordered features in both directions, any two groups of categorical features, missing values into a group, renames) interleaved with transforms and save/reload; after every accepted edit the partition of rows, values_orders, summary and the JSON-rebuilt object are compared with a plain model. Sampled histories.",
+        note="Trusted: DiscretizerModel (reads only data attributes; edits applied by its own rules; a group of quantiles is led by its largest quantile); labels of quantitative 'str' outputs are read from the object and only required to be injective.",
+    ),
+    "C19": dict(
+        engine="session",
+        category="fault_enumeration",
+        design_ref="DESIGN.md §4.6",
+        technique="deterministic simulation with enumerated fault classes: every listed malformed-input class x every class it is meaningful for x {fresh, fitted object} in every batch, at seeded positions/worlds/schedules, restarts in between; atomicity of the fitted object checked by state digest, JSON export and transforms before/after",
+        text="The product fault class x system class x phase is enumerated completely in every batch (12 fault classes, 10 classes, 2 phases); each malformed call must raise AssertionError and leave a fitted object's values_orders, JSON export and transform of three recorded frames unchanged, and a following valid transform must succeed. Worlds and positions are sampled.",
+        note="Trusted: the mutators of acsim/c19.py as representatives of each fault class; target faults are not demanded of the two unsupervised discretizers whose fit ignores y; a value absent from a ranking is not demanded to be refused for a feature documented as not discretized (largest modality rarer than min_freq).",
+    ),
+    "C04": dict(
+        engine="session",
+        category="exploration",
+        design_ref="DESIGN.md §4.7",
+        technique="deterministic simulation (workload invariant): transform == DiscretizerModel(values_orders) asserted at every step at which the fitted state is new (after fit, restart, edit) in seeded sessions with restart faults and a simulated pool",
+        text="Weakest kind of claim here: an invariant of fitted state evaluated at every simulated step (states only histories reach: rebuilt from JSON, edited, reloaded-then-edited; pooled transform path). Reach over inputs is exactly the swarm world generator's.",
+        note="Trusted: DiscretizerModel.predict (first interval with value <= leader; group membership by Python equality; float labels = rank; 'str' quantitative labels read from the object, injectivity demanded).",
+    ),
+    "C05": dict(
+        engine="session",
+        category="exploration",
+        design_ref="DESIGN.md §4.8",
+        technique="deterministic simulation (workload invariant) with unseen-data faults: frames with injected unseen categories / missing values / out-of-range, extreme and infinite numbers / equal values of another type / empty and single-row frames, on fitted and reloaded objects; accept-or-reject and closed label set predicted by the DiscretizerModel",
+        text="Every transform of a frame carrying injected unseen data is compared with the model: predicted reject => AssertionError naming an offending feature; predicted accept => only fitted labels (closed set), unseen categories in the default group, any number in its interval; any other exception is a violation. Sampled worlds and injections.",
+        note="Trusted: DiscretizerModel; injected tokens are clearly novel; NaN of a qualitative feature never falls into the default group (the code exempts the missing-value sentinel).",
+    ),
 }
 
-PENDING = {
-    pid: "not claimed yet: its simulation check (DESIGN.md §4) is being built in this session and is not registered until it runs clean"
-    for pid in ("C04", "C05", "C06", "C07", "C10", "C17", "C19")
-}
+PENDING = {}
 
 NOT_APPLICABLE = {
     "C01": "pure function of (X, y, dev, params): optimality needs an exhaustive per-instance re-enumeration oracle over inputs/configurations; no schedule, history, restart or fault in the statement (DESIGN.md §5)",
